@@ -109,7 +109,7 @@ def run_fuzz_part(rep, tier, pid):
         if target not in bins:
             continue
         runs = qruns if tier == "quick" else truns
-        base = os.path.join(build.BUILD, "fuzzrun", "%s-%s" % (pid, target))
+        base = os.path.join(build.BUILD, "fuzzrun", "%s-%s-%d" % (pid, target, os.getpid()))
         corpus_src = os.path.join(build.VERIF, "corpus", target)
         with concurrent.futures.ThreadPoolExecutor(workers) as ex:
             futs = [ex.submit(_worker, bins[target], os.path.join(base, "w%d" % i), runs, (rep.seed * 1000 + i + 1) & 0x7FFFFFFF, max_len, corpus_src)
